@@ -409,7 +409,7 @@ def heap1(cfg):
                     if isinstance(c, dict) and c.get('k') == 'binop' and c.get('op') in ('==', '!='):
                         l, r = f.strip_casts(c['l']), f.strip_casts(c['r'])
                         for x, y in ((l, r), (r, l)):
-                            if isinstance(x, dict) and x.get('k') == 'ref' and x.get('did') == errvar and isinstance(y, dict) and y.get('k') == 'int' and y.get('v') == '0':
+                            if isinstance(y, dict) and y.get('k') == 'int' and y.get('v') == '0' and ((isinstance(x, dict) and x.get('k') == 'ref' and errvar is not None and x.get('did') == errvar) or x is ce):
                                 val = (case == 'ok') == (c['op'] == '==')
                             if isinstance(x, dict) and x.get('k') == 'ref' and x.get('did') == pvar and isinstance(y, dict) and y.get('k') == 'nullptr':
                                 if ptr == 'null':
